@@ -1,11 +1,11 @@
-\* exhaustive, quick: every View session with up to 2 iterator calls from each of the 8 initial contents
+\* exhaustive, quick: every View session with up to 2 iterator calls from each of 4 initial contents
 CONSTANTS
   StoreKeys <- KeysABC
   Targets <- TargetsABC
   Vals <- ValsEX
   MaxLen = 3
   Phased = FALSE
-  InitFamily <- InitSubsets
+  InitFamily <- InitFew
   Ops <- OpsIterOnly
 INIT Init
 NEXT Next
